@@ -233,8 +233,10 @@ def run_property(prop, tier, seed, ck, no_bounded=False):
         'property_id': prop, 'tier': tier, 'seed': seed, 'level': level, 'coverage': cov,
         'assumptions': assumptions, 'wall_s': round(time.time() - t0, 2), 'violations': len(violations),
     }
-    os.makedirs(os.path.join(HERE, 'evidence'), exist_ok=True)
-    with open(os.path.join(HERE, 'evidence', f'{prop}.json'), 'w') as f:
+    # evidence/ describes /repo itself; runs against a scratch copy (VERIF_REPO=...) write elsewhere
+    evdir = 'evidence' if os.path.realpath(repo) == '/repo' else os.path.join('replays', 'evidence-scratch')
+    os.makedirs(os.path.join(HERE, evdir), exist_ok=True)
+    with open(os.path.join(HERE, evdir, f'{prop}.json'), 'w') as f:
         json.dump(ev, f, indent=1, default=str)
     if violations:
         return 1
